@@ -1280,6 +1280,19 @@ func (s *Sim) checkSwallowed(v *recView) {
 			if a, _ := isAdoptPatch(c); !a {
 				excused = true // release: the two documented Invalid cases
 			}
+		case apierrors.IsConflict(c.Err) && c.Kind == KRev && c.Verb == "update" && c.Sub == "":
+			// renumbering lost a race, and the uncached re-read shows that the revision
+			// already carries the requested number (somebody else wrote it): nothing is
+			// left to retry
+			rest := rec.Calls[i+1:]
+			if len(rest) > 0 && rest[0].Kind == KRev && rest[0].Verb == "get" && rest[0].Name == c.Name && rest[0].Err == nil {
+				want, okw := c.In.(*appsv1.ControllerRevision)
+				got, okg := rest[0].Out.(*appsv1.ControllerRevision)
+				if okw && okg && want != nil && got != nil && got.Revision == want.Revision && string(got.Data.Raw) == string(want.Data.Raw) {
+					excused = true
+					s.count("probe.renumber_conflict_already_done")
+				}
+			}
 		case apierrors.IsAlreadyExists(c.Err) && c.Kind == KRev && c.Verb == "create":
 			rest := rec.Calls[i+1:]
 			if len(rest) > 0 && rest[0].Kind == KRev && rest[0].Verb == "get" && rest[0].Err == nil {
